@@ -4,6 +4,7 @@ property (plus the extra properties listed below), undo it, and write seeded/RES
 Evidence of these runs goes to out/mut-evidence, never to evidence/."""
 import glob, json, os, re, subprocess, sys, time
 ROOT = os.path.dirname(os.path.dirname(os.path.abspath(__file__)))
+REPO = os.environ.get("VERIF_REPO", "/repo")  # the official sweep runs on /repo itself
 EXTRA = {"C06-m2": ["C09"], "C05-m2": ["C06", "C07"], "C06-m1": ["C07"], "C17-m2": ["C07"], "C07-m3": ["C17"], "C13-m2": ["C04"], "C04-m1": ["C13"],
          "C19-m3": ["C02"], "C12-m3": ["C01"], "C09-m1": ["C08"], "C08-m2": ["C09"]}
 env = dict(os.environ, VERIF_EVIDENCE_DIR=os.path.join(ROOT, "out", "mut-evidence"))
@@ -13,9 +14,9 @@ for sid in seeds:
     d = os.path.join(ROOT, "seeded", sid)
     meta = json.load(open(os.path.join(d, "meta.json")))
     props = [meta["property"]] + EXTRA.get(sid, [])
-    st = subprocess.run(["git", "-C", "/repo", "status", "--porcelain"], stdout=subprocess.PIPE, text=True).stdout.strip()
-    assert st == "", "/repo not clean: " + st
-    r = subprocess.run(["git", "-C", "/repo", "apply", os.path.join(d, "patch.diff")], stdout=subprocess.PIPE, stderr=subprocess.STDOUT, text=True)
+    st = subprocess.run(["git", "-C", REPO, "status", "--porcelain"], stdout=subprocess.PIPE, text=True).stdout.strip()
+    assert st == "", REPO + " not clean: " + st
+    r = subprocess.run(["git", "-C", REPO, "apply", os.path.join(d, "patch.diff")], stdout=subprocess.PIPE, stderr=subprocess.STDOUT, text=True)
     if r.returncode != 0:
         rows.append((sid, "PATCH-DOES-NOT-APPLY", "", r.stdout.strip()[:200])); continue
     try:
@@ -33,7 +34,7 @@ for sid in seeds:
             print(sid, pid, "exit", c.returncode, "%.0fs" % (time.time() - t0), flush=True)
         rows.append((sid, "DETECTED" if det else "missed", "; ".join(det), "; ".join(notes)))
     finally:
-        subprocess.run(["git", "-C", "/repo", "checkout", "--", "."])
+        subprocess.run(["git", "-C", REPO, "checkout", "--", "."])
     print(rows[-1], flush=True)
     with open(os.path.join(ROOT, "out", "mutall_rows.json" if sys.argv[1:] else "mutall_all.json"), "w") as f:
         json.dump(rows, f, indent=1)
